@@ -228,6 +228,25 @@ def enumerate_injections(ir, uni, kinds=None):
             if s["close"] is None:
                 continue
             curl, cidx = s["close"]
+            if ("syntax-line" in kinds and s["open"][0] == curl
+                    and not s.get("empty")):
+                # the closing line is lost and nothing but blank / comment
+                # lines follow in that resource: the resource ends with a
+                # section still open, and the place where that is found out
+                # is its last line
+                rest = uni["res"][curl][cidx + 1:]
+                if all(x["role"] in ("blank", "comment") for x in rest) \
+                        and not (rest and rest[-1]["t"] == ""):
+                    # (an EMPTY last line without a line terminator is no
+                    # line at all: such resources are left out)
+                    tail = ["# the closing line was here", "   ",
+                            "# vim: set ft=zconfig :"][:1 + n % 3]
+                    total = len(uni["res"][curl]) - 1 + len(tail)
+                    out.append({"kind": "syntax-line", "variant": 90,
+                                "url": curl, "op": "replace", "idx": cidx,
+                                "lines": tail, "culprit": [curl, total],
+                                "family": "config", "value": None,
+                                "spelling": "unclosed-at-eof"})
             t, name = s["type"], s["name"]
             slot = s.get("slot")
             if slot is None:
